@@ -319,6 +319,13 @@ def property_checks(inp):
     t3 = copy.deepcopy(t); t3["seed"] = 424242 if t["seed"] != 424242 else 7
     other = run_target(t3)
     A(("different seeds give different screens", 0.0 if not bits_same(ref[:1], other[:1]) else 1.0, 0.0))
+    # ... also large seeds that differ only in their low bits (nanosecond time stamps, 64- and 128-bit entropy values)
+    same_big = 0
+    for sa, sb in ((2 ** 53 + 1, 2 ** 53 + 2), (1759400000123456789, 1759400000123456790), (2 ** 64 + 5, 2 ** 64 + 6), (2 ** 127 + 1, 2 ** 127 + 3)):
+        ta, tb = copy.deepcopy(t), copy.deepcopy(t)
+        ta["seed"], tb["seed"] = sa, sb; ta["nrows"] = tb["nrows"] = 1
+        same_big += int(bits_same(run_target(ta)[:1], run_target(tb)[:1]))
+    A(("large seeds differing only in the low bits give different screens (%s target)" % t["kind"], float(same_big), 0.0))
     with warnings.catch_warnings():
         warnings.simplefilter("ignore")
         u1 = ps.ft_phase_screen(0.2, 8, 0.1, 30., 0.01); u2 = ps.ft_phase_screen(0.2, 8, 0.1, 30., 0.01)
